@@ -3,8 +3,8 @@
  * slots [2],[3] are read-only operands (so divisors / shift counts never change); [0],[1],[4],[5] are the lvalue
  * objects of the composite nodes with pre-order index 0..3 (no object is modified twice in one expression). */
 typedef struct S { long a; int b; int c; } S;          /* 16 bytes: returned in rax:rdx */
-typedef struct L { long a[4]; } L;                     /* 32 bytes: returned in memory  */
-struct B { int x : 5; unsigned y : 7; long z : 20; };
+typedef struct L { long a[3]; } L;                     /* 24 bytes: memory class, odd number of stack slots */
+struct B { int x : 5; int y : 7; long z : 20; };
 #define gi FN(gi)
 #define gl FN(gl)
 #define gf FN(gf)
@@ -82,7 +82,7 @@ void FN(reset)(void) {
   gp[0] = &gi[1]; gp[1] = &gi[2]; gp[2] = &gi[2]; gp[3] = &gi[3]; gp[4] = &gi[4]; gp[5] = &gi[5]; gp[6] = gi; gp[7] = gi;
   for (int j = 0; j < 8; j++) {
     gs[j].a = 10 + j; gs[j].b = 20 + j; gs[j].c = 30 + j;
-    for (int m = 0; m < 4; m++) gL[j].a[m] = 100 + 10 * j + m;
+    for (int m = 0; m < 3; m++) gL[j].a[m] = 100 + 10 * j + m;
   }
   gb.x = 1; gb.y = 20; gb.z = 3;
   gna = 0;
